@@ -50,6 +50,15 @@ def obligations(tier, ctx):
         Ob(name="ser_roots_str", params=[("name", "str"), ("rid", "str")], pre=["1 <= len(name) <= 2", "len(rid) <= 2"], call="H.roots_response(name, rid)", backend="F", timeout=200, family="library-side serialisers"),
         Ob(name="ser_initialize", params=[("v", "str")], pre=["1 <= len(v) <= 2"], call="H.initialize_request(v)", backend="F", timeout=300, family="library-side serialisers"),
     ]
+    from symcheck import consts
+    nsz = len(consts.size_cases(70000, extra=(4096, 8192, 65536, 131072)))
+    for which in range(7):
+        for be in ("P", "F"):
+            if tier == "quick" and be == "F" and which not in (0, 1):
+                continue
+            for pat in ((5,) if tier == "quick" else (0, 4, 5)):
+                obs.append(Ob(name=f"ser_long_{which}_{be}_p{pat}", params=[("k", "int")], pre=[f"0 <= k < {nsz}"], call=f"H.ser_long({which}, k, {pat})", backend=be, timeout=900,
+                              family="size: library-side serialisers with strings of c-1, c, c+1 characters (c: integer constants of the source and environment sizes), both backends"))
     return obs
 
 
